@@ -58,6 +58,7 @@ class World:
         self.good_replies = 0
         self.handshake_reply_s = []
         self.second_connections = 0
+        self.dials = []  # every dial of the client that a fake peer accepted, stamped with the number of announce requests seen so far
         self.contacted = set()
         self.peer_last_sent = {}
 
@@ -187,6 +188,15 @@ async def hostile(w, p, reader, writer, we_connect):
     rec = {"port": p["port"], "kind": p["kind"], "expect_close": p["expect_close"], "closed_after_s": None, "closed_early_at_step": None, "incoming": p["incoming"]}
     w.hostile.append(rec)
     my_hs = bytes([19]) + PROTO + bytes(8) + w.info_hash + pid(p)
+    if p.get("bad_handshake") == "info_hash":
+        k = rnd.randrange(20)
+        ih = bytearray(w.info_hash)
+        ih[k] ^= 1 << rnd.randrange(8)
+        my_hs = bytes([19]) + PROTO + bytes(8) + bytes(ih) + pid(p)
+    elif p.get("bad_handshake") == "peer_id":
+        other = bytearray(pid(p))
+        other[rnd.randrange(20)] ^= 1 << rnd.randrange(7)
+        my_hs = bytes([19]) + PROTO + bytes(8) + w.info_hash + bytes(other)
 
     async def drain():
         try:
@@ -273,6 +283,8 @@ async def seeder(w, p, reader, writer, we_connect):
     """Honest (or corrupting) seeder persona over real TCP."""
     if not we_connect:
         w.contacted.add(p["port"])
+        if len(w.dials) < 400:
+            w.dials.append({"port": p["port"], "tracker_requests": w.tracker_requests, "at_s": round(time.time() - T0, 3)})
     if p.get("kind") and p["kind"] != "visitor":
         return await hostile(w, p, reader, writer, we_connect)
     rnd = random.Random(p["seed"])
@@ -641,7 +653,7 @@ async def main():
         "piece_files": len(piece_files), "pieces": len(w.pieces), "piece_problems": problems[:3],
         "panics": panics, "sanitizer": san, "unexpected_files": extra[:3],
         "tracker_requests": w.tracker_requests, "handshakes_ok": w.handshakes_ok, "handshakes_bad": w.handshakes_bad,
-        "bytes_moved": w.bytes_moved, "second_connections": w.second_connections, "handshake_reply_s": w.handshake_reply_s[:8], "hostile": w.hostile, "closed_by_client": w.closed_by_client[:10], "conn_life": [dict(l, lived_s=l.get("lived_s", round(time.time() - l["t0"], 1)), t0=round(l["t0"] - T0, 2)) for l in w.conn_life[:10]], "peak_rss_kb": hwm, "log_tail": w.log[-25:], "stdout_tail": stdout[-600:],
+        "bytes_moved": w.bytes_moved, "second_connections": w.second_connections, "dials": w.dials, "handshake_reply_s": w.handshake_reply_s[:8], "hostile": w.hostile, "closed_by_client": w.closed_by_client[:10], "conn_life": [dict(l, lived_s=l.get("lived_s", round(time.time() - l["t0"], 1)), t0=round(l["t0"] - T0, 2)) for l in w.conn_life[:10]], "peak_rss_kb": hwm, "log_tail": w.log[-25:], "stdout_tail": stdout[-600:],
     }))
 
 
